@@ -181,7 +181,7 @@ async fn main(plan: Plan) -> Outcome {
     for t in 0..plan.tasks {
         let session = session.clone();
         let ins = ins.clone();
-        let kinds: Vec<u64> = (0..plan.per_task).map(|_| tape::choose("c18:kind", 3)).collect();
+        let kinds: Vec<u64> = (0..plan.per_task).map(|_| tape::choose("c18:kind", 4)).collect();
         let explicit: Vec<bool> = (0..plan.per_task).map(|_| tape::chance("c18:explicit", 1, 4)).collect();
         let gaps: Vec<u64> = (0..plan.per_task).map(|_| tape::choose("c18:gap", 3)).collect();
         let per = plan.per_task;
@@ -202,9 +202,19 @@ async fn main(plan: Plan) -> Outcome {
                         p.set_timestamp(ts);
                         let _ = session.execute_unpaged(&p, (k as i64, m as i64)).await;
                     }
-                    _ => {
+                    2 => {
                         let mut b = Batch::default();
                         b.append_statement((*ins).clone());
+                        b.append_statement((*ins).clone());
+                        b.set_is_idempotent(true);
+                        b.set_timestamp(ts);
+                        let _ = session.batch(&b, ((1i64, m as i64), (2i64, m as i64))).await;
+                    }
+                    _ => {
+                        // A batch with an unprepared statement that has values: the driver
+                        // prepares it on the fly and rebuilds the batch.
+                        let mut b = Batch::default();
+                        b.append_statement(Statement::new(client::Q_PREPARED_INSERT));
                         b.append_statement((*ins).clone());
                         b.set_is_idempotent(true);
                         b.set_timestamp(ts);
